@@ -193,7 +193,11 @@ func ReadState(st *stor.Stor, off uint64) *DbState {
 }
 
 func readState(st *stor.Stor, off uint64) (offSchema, offInfo uint64, t int64) {
-	buf := st.Data(off)[:stateLen]
+	buf := st.Data(off)
+	if len(buf) < stateLen {
+		return 0, 0, 0 // truncated, don't read past the end
+	}
+	buf = buf[:stateLen]
 	i := len(magic1)
 	if string(buf[:i]) != magic1 {
 		return 0, 0, 0
